@@ -64,4 +64,140 @@ def c01(driver):
     return mon
 
 
-REGISTRY = {'c01': c01}
+def has_bypass_build(state, pr_id, config):
+    """bypass_build_status granted to this pull request by an admin comment,
+    a per-author setting or the command line."""
+    if 'bypass_build_status' in config.options:
+        return True
+    pr = [p for p in state['prs'] if p['id'] == pr_id]
+    if pr and 'bypass_build_status' in (config.pr_author_options or {}).get(
+            pr[0]['author'], ()):
+        return True
+    for cid, user, text in state['comments']:
+        if cid == pr_id and user in config.admins and \
+                'bypass_build_status' in text and \
+                (not pr or user != pr[0]['author']):
+            return True
+    return False
+
+
+def evaluated_pr(pre, ev):
+    """The parent pull request an eval_pr event is about."""
+    if ev[0] != 'eval_pr':
+        return None
+    for p in pre['prs']:
+        if p['id'] == ev[1]:
+            if p['author'] != ROBOT:
+                return p['id']
+            import re
+            ids = re.findall(r'\d+', p['description'])
+            return int(ids[0]) if ids else None
+    return None
+
+
+def c03(driver):
+    """With queues on, a destination branch only advances to a commit whose
+    build (configured key) is SUCCESSFUL on that very commit."""
+    key = driver.config.build_key
+
+    def mon(w, pre, ev, obs, post):
+        if not driver.config.queue:
+            return [], {}
+        d0, d1 = dests(pre), dests(post)
+        moved = [(b, d0[b], d1[b]) for b in d1 if b in d0 and d0[b] != d1[b]]
+        if not moved:
+            return [], {}
+        stats = {'c03_dest_moved': len(moved)}
+        if ev[0] == 'force_merge':
+            stats['c03_force_merge'] = 1
+            return [], stats
+        status = obs.get('status')
+        if status == 'SuccessMessage':
+            k = evaluated_pr(pre, ev)
+            if k is not None and has_bypass_build(pre, k, driver.config):
+                stats['c03_direct_merge_bypassed'] = 1
+                return [], stats
+        out = []
+        for b, old, new in moved:
+            st = w.status_of(new, key)
+            if st != 'SUCCESSFUL':
+                out.append({'property': 'C03', 'msg':
+                            '%s advanced to %s whose %s build is %s '
+                            '(event %s, job status %s)' % (
+                                b, new[:10], key, st, ev, status)})
+        return out, stats
+    return mon
+
+
+INFO_TITLES = ('# Hello', '# Integration data created')
+
+
+def c06(driver):
+    """Entering the queue / merging directly requires a green build on every
+    integration commit; waiting for a build is silent."""
+    key = driver.config.build_key
+
+    def mon(w, pre, ev, obs, post):
+        status = obs.get('status')
+        if status not in ('Queued', 'SuccessMessage', 'BuildNotStarted',
+                          'BuildInProgress'):
+            return [], {}
+        k = evaluated_pr(pre, ev)
+        if k is None and ev[0] in ('eval_commit', 'eval_sha', 'run_pending'):
+            # find the PR whose comment list grew / that got queued
+            before = {p['id'] for p in pre['prs']}
+            for p in post['prs']:
+                if p['author'] != ROBOT and p['id'] in before:
+                    c0 = [c for c in pre['comments'] if c[0] == p['id']]
+                    c1 = [c for c in post['comments'] if c[0] == p['id']]
+                    q0 = [r for r in heads(pre) if r.startswith(
+                        'q/w/%d/' % p['id'])]
+                    q1 = [r for r in heads(post) if r.startswith(
+                        'q/w/%d/' % p['id'])]
+                    if c0 != c1 or q0 != q1:
+                        k = p['id']
+        if k is None:
+            return [], {}
+        out, stats = [], {}
+        new_comments = [c for c in post['comments']
+                        if c[0] == k][len([c for c in pre['comments']
+                                           if c[0] == k]):]
+        if status in ('BuildNotStarted', 'BuildInProgress'):
+            stats['c06_waiting'] = 1
+            for _, user, text in new_comments:
+                if user == ROBOT and not text.startswith(INFO_TITLES):
+                    out.append({'property': 'C06', 'msg':
+                                'job ended %s but commented: %r' % (
+                                    status, text[:80])})
+            return out, stats
+        if not key or has_bypass_build(pre, k, driver.config):
+            stats['c06_gate_bypassed'] = 1
+            return [], stats
+        src = [p['src'] for p in post['prs'] if p['id'] == k][0]
+        if status == 'Queued':
+            refs = heads(post)
+        else:
+            # direct merge: the integration branches are gone afterwards;
+            # take them as they were when the final push started
+            pushes = [c for c in obs.get('cmds', [])
+                      if c['cmd'].startswith('git push --all') and
+                      'before' in c]
+            refs = {r: s for r, s in (pushes[-1]['before'] if pushes
+                                      else pre['refs']).items()
+                    if not r.startswith('refs/')}
+        tips = [(b, s) for b, s in refs.items()
+                if b == src or (b.startswith('w/') and b.endswith('/' + src))]
+        stats['c06_gate_passed'] = 1
+        for b, s in tips:
+            st = w.status_of(s, key)
+            if st != 'SUCCESSFUL':
+                out.append({'property': 'C06', 'msg':
+                            'pull request %d %s although the %s build of '
+                            'integration commit %s (%s) is %s' % (
+                                k, 'entered the queue' if status == 'Queued'
+                                else 'was merged', key, s[:10], b, st)})
+        return out, stats
+    return mon
+
+
+REGISTRY = {'c01': c01, 'c03': c03, 'c06': c06}
